@@ -13,7 +13,7 @@ query of the universe, computed from the implementation alone."""
 import os
 import time
 
-from . import common, lib_db, c06
+from . import common, lib_db, c06, lib_cachesync
 from .common import parallel_map
 from .lib_db import NAMES, VERS, TAGS
 from .lib_dbref import fallbacks
@@ -28,7 +28,9 @@ RULE = ("cases = histories of 4-14 commands of the C06 generator by users A and 
         "a cache and one rebuilt one; distinct = distinct digests")
 TRUSTED = ["fork-per-command runner, audit-log mtime normaliser, crash interposer of harness/lib_db.py",
            "pickle round-trips the cache object graph (exercised, not modelled)"]
-ASSUMPTIONS = ["commands do not interleave (C09 owns the locks); two events within one kernel timestamp tick are not "
+ASSUMPTIONS = ["the `live2` steps (two Eups instances alive in one process) are checked against the property only (oracle (ii): "
+               "every later query through the cache equals the files); the model covers one instance per process",
+               "commands do not interleave (C09 owns the locks); two events within one kernel timestamp tick are not "
                "exhibited: the harness renumbers modification times in the order of the audit log",
                "the users share the database files and the cache inside ups_db/, nothing else; all stacks writable; global "
                "tags only; the stacks have no ups_db/global.tags, so `Eups(asAdmin=True)` ends with RuntimeError in "
@@ -119,9 +121,91 @@ def _run_one(case):
 
 # ---- generation ----------------------------------------------------------------------------------------
 
+def gen_live2(rng, names=None):
+    """two Eups instances of one user alive in one process, 2-5 mutating API calls dealt between them"""
+    u = rng.choice(("A", "B"))
+    fl = "generic" if rng.random() < 0.1 else "Linux"
+    sub = lib_db.gen_history(rng, rng.randint(2, 5), users=(u,), crash=0.0, rmcache=0.0, noaction=0.0, remove=0.04,
+                             envrm=0.0, ext=0.0, tables=0.0)
+    seq = []
+    for c in sub["cmds"]:
+        c = dict(c)
+        c["flavor"] = fl
+        c.pop("force", None)
+        c.pop("setup", None)
+        if names and rng.random() < 0.7:
+            c["name"] = rng.choice(names)
+            if c.get("dir"):
+                c["dir"] = [c["dir"][0], lib_db.rel_of(fl, c["name"], c.get("version") or "1")]
+        seq.append([len(seq) % 2 if rng.random() < 0.7 else rng.randrange(2), c])
+    return {"op": "live2", "user": u, "flavor": fl, "seq": seq}
+
+
+def gen_race(rng, h):
+    """two unserialised writers of one user: B's whole command at a gate inside A's ProductStack.reload.  Both commands
+    name products the history has declared (a command that adds or removes a product NAME makes A rebuild: harmless)"""
+    u = rng.choice(("A", "B"))
+    fl = "generic" if rng.random() < 0.1 else "Linux"
+    known = [(c["name"], c.get("version"), c["dir"][0]) for c in h["cmds"]
+             if c.get("op") == "declare" and c.get("dir") and c["dir"][0] < lib_db.NSTACKS and c.get("flavor", "Linux") == fl]
+    names = sorted(set(k[0] for k in known)) or [rng.choice(NAMES)]
+
+    def one():
+        n = rng.choice(names)
+        v = rng.choice(VERS)
+        si = rng.randrange(lib_db.NSTACKS)
+        r = rng.random()
+        if r < 0.5:
+            return {"user": u, "flavor": fl, "name": n, "op": "declare", "version": v, "stack": None,
+                    "tag": rng.choice([None, None, "stable", "rc-1"]), "dir": [si, lib_db.rel_of(fl, n, v)]}
+        if r < 0.7 and known:
+            n, v, si = rng.choice(known)
+            return {"user": u, "flavor": fl, "name": n, "op": "declare", "version": v, "stack": None,
+                    "tag": rng.choice(["stable", "rc-1", "current"]), "dir": None}
+        if known:
+            n, v, si = rng.choice(known)
+        return {"user": u, "flavor": fl, "name": n, "op": "undeclare", "version": v, "stack": None, "tag": None, "vat": False}
+    if rng.random() < 0.25:
+        # A's constructor rebuilds (its caches are gone) and B lands between its scan of the database and its save()
+        gate = ["at_save", rng.choice([0, 0, 1])]
+        pre = [{"op": "clearcache", "user": u}]
+    else:
+        gate = [rng.choice(["after_load", "after_load", "at_open"]), rng.choice([0, 0, 1, 2, 3])]
+        pre = [{"op": "query", "user": u, "flavor": fl}]      # A reads caches that are current: its constructor unpickles
+    return pre + [{"op": "race", "user": u, "flavor": fl, "gate": gate, "a": one(), "b": one()}]
+
+
 def gen_case(rng):
     h = lib_db.gen_history(rng, rng.randint(4, 14), users=("A", "B"), crash=0.12, rmcache=0.08, noaction=0.04,
                            remove=0.03)
+    if rng.random() < 0.3:
+        k = rng.randint(max(1, len(h["cmds"]) // 2), len(h["cmds"]))
+        h["cmds"] = h["cmds"][:k] + gen_race(rng, {"cmds": h["cmds"][:k]}) + h["cmds"][k:k + 2]
+    if rng.random() < 0.3:       # the tail of the history after the insertion is checked by oracle (ii) only
+        names = sorted(set(c["name"] for c in h["cmds"] if "name" in c))
+        k = rng.randint(max(1, len(h["cmds"]) // 2), len(h["cmds"]))
+        live = gen_live2(rng, names)
+        pre = []
+        if rng.random() < 0.45:  # both instances read the stack-wide cache (the user's own files are gone or stale)
+            pre = [{"op": "adminbuild", "user": live["user"], "flavor": live["flavor"]}]
+        elif rng.random() < 0.3:
+            pre = [{"op": "clearcache", "user": live["user"]}]
+        h["cmds"] = h["cmds"][:k] + pre + [live] + h["cmds"][k:k + 2]
+    if rng.random() < 0.3:
+        # undeclare (or remove) of one of several versions killed at the entry of Database.undeclare: between the cache
+        # write and the database write, were the code to write the cache first
+        u, fl, si = rng.choice(("A", "B")), ("generic" if rng.random() < 0.15 else "Linux"), rng.randrange(lib_db.NSTACKS)
+        n = rng.choice(NAMES)
+        v1, v2 = rng.sample(VERS, 2)
+        D = lambda v: {"user": u, "flavor": fl, "name": n, "op": "declare", "version": v, "stack": None, "tag": None,
+                       "dir": [si, lib_db.rel_of(fl, n, v)], "force": True}
+        kill = {"user": rng.choice(("A", "B")), "flavor": fl, "name": n, "version": v1, "crash_before": rng.choice([1, 1, 2])}
+        if rng.random() < 0.25:
+            kill.update(op="remove")
+        else:
+            kill.update(op="undeclare", stack=None, tag=None, vat=False)
+        k = rng.randint(0, len(h["cmds"]))
+        h["cmds"] = h["cmds"][:k] + [D(v1), D(v2), kill] + h["cmds"][k:]
     cmds = []
     for c in h["cmds"]:
         cmds.append(c)
@@ -149,6 +233,7 @@ def check_case(ctx, case, steps, msteps):
     inp = {"missing": case.get("missing", []), "cmds": case["cmds"]}
     prev = c06.EMPTY
     nchange = nacc = nreb = 0
+    ctx.hist("histories")
     for i, (cmd, rec) in enumerate(zip(case["cmds"], steps)):
         m = msteps[i] if msteps and i < len(msteps) else None
         sub = {"missing": inp["missing"], "cmds": case["cmds"][:i + 1]}
@@ -160,6 +245,25 @@ def check_case(ctx, case, steps, msteps):
         if rec["db"] != prev:
             nchange += 1
         prev = rec["db"]
+        if cmd["op"] == "race":
+            ra = rec.get("race") or {}
+            if rec["out"] != "ok":
+                raise common.InfraError("race child failed: %s" % (rec["out"],))
+            ctx.hist("race: two unserialised writers")
+            fired = str(ra.get("fired"))
+            ctx.hist("race: B ran %s" % ("inside A's reload" if fired.startswith(("after_load", "at_open")) else
+                                         "before a save() of A" if fired.startswith("at_save") else "after A's constructor"))
+            ctx.hist("race: A=%s/%s B=%s/%s" % (cmd["a"]["op"], ra.get("a", ["?"])[0], cmd["b"]["op"], ra.get("b")))
+            continue
+        if cmd["op"] == "live2":
+            ctx.hist("live2: two instances in one process")
+            if i > 0 and case["cmds"][i - 1]["op"] == "adminbuild":
+                ctx.hist("live2 right after eups admin buildCache -A (both read the stack-wide cache)")
+            for (i, c), (o, calls) in zip(cmd["seq"], (rec.get("live") or {}).get("outs", [])):
+                ctx.hist("live2 sub=%s/%s" % (c["op"], o))
+            if rec["out"] != "ok":
+                raise common.InfraError("live2 child failed: %s" % (rec["out"],))
+            continue
         if cmd["op"] in ("rmcache", "clearcache", "adminbuild"):
             ctx.hist({"rmcache": "rm cache", "clearcache": "eups admin clearCache", "adminbuild": "eups admin buildCache -A"}[cmd["op"]])
             if cmd["op"] == "adminbuild" and rec["out"] == "ok" and \
@@ -172,6 +276,11 @@ def check_case(ctx, case, steps, msteps):
                          note="cache files of the user left after eups admin clearCache: %s" % rec["caches_left"])
             continue
         ctx.hist("cmd=%s/%s" % (cmd["op"], rec["out"]))
+        if cmd.get("crash_before") and rec["out"] == "Crashed":
+            ctx.hist("killed at the entry of a Database mutation/%s" % cmd["op"])
+            if cmd["op"] in ("undeclare", "remove") and cmd.get("version") and \
+                    sum(1 for d in rec["db"]["decls"] if d[1] == cmd["name"] and d[3] == cmd.get("flavor", "Linux")) >= 2:
+                ctx.hist("undeclare killed before Database.undeclare, several versions declared")
         fl = cmd.get("flavor", "Linux")
         for si, l in enumerate(rec.get("loaded") or []):
             if l == sorted(set(fallbacks(fl))):            # exactly the needed flavors: the cache files were accepted
@@ -205,19 +314,77 @@ def evaluate(ctx, cases):
         check_case(ctx, c, steps, lib_db.model_steps(ans))
 
 
+# ---- the staleness test between live ProductStack objects (Model/CacheSync.lean) -----------------------------
+
+def check_sync(ctx, case, real, model):
+    """both oracles on one scenario of lib_cachesync: `real` = states observed on the code, `model` = the model's"""
+    inp = dict(case)
+    if isinstance(real, dict):
+        raise common.InfraError("sync scenario failed: %s" % (real["error"],))
+    stale = False
+    for k, st in enumerate(real):
+        sub = dict(case, evs=case["evs"][:k])
+        m = model[k] if model is not None and k < len(model) else None
+        differs = m is not None and common.jdump(m) != common.jdump(st)
+        if differs:
+            ctx.disagree("sync_state", sub, st, m, note="after %s" % (case["evs"][k - 1] if k else "the constructors",))
+        if any(st[i]["mod"] == "older" for i in ("i0", "i1")):
+            stale = True
+        if differs and not (st["fresh"] and st["file"] != st["db"]):
+            break
+        if st["fresh"] and st["file"] != st["db"]:
+            deleted = any(e[0] == "delete" for e in case["evs"][:k])
+            cls = "D61" if deleted else ("D62" if case.get("gate") == "rebuild0" else None)   # D62 is fixed: naming it marks a regression
+            ctx.fail("fresh_cache_is_complete", sub, st, m, finding=cls,
+                     note="the user's cache file is not older than the database and holds %s, the database %s" % (st["file"], st["db"]))
+            break
+    ctx.hist("sync scenario: %s" % ("an instance went stale" if stale else "nobody stale"))
+    if case.get("gate"):
+        ctx.hist("sync scenario: another writer inside the rebuilding constructor")
+    for e in case["evs"]:
+        ctx.hist("sync event %s" % e[0])
+    ctx.case(key={"sync": inp}, nontrivial=stale, sample={"input": inp} if ctx.evaluations % 97 == 0 else None)
+
+
+def sync_protocol(ctx, corpus=()):
+    """every scenario (user's file absent / stale / fresh x stack-wide cache or none) x every event sequence up to
+    length 2 (quick) / 4 (thorough), plus sampled longer ones"""
+    thorough = ctx.tier == "thorough"
+    cases = list(corpus) + lib_cachesync.all_cases(4 if thorough else 2)
+    for _ in range(1500 if thorough else 120):
+        k = ctx.rng.randint(3, 6)
+        cases.append({"n": ctx.rng.choice([1, 2, 3]), "fileKind": ctx.rng.randrange(3), "sysOk": ctx.rng.random() < 0.5,
+                      "evs": [list(ctx.rng.choice(lib_cachesync.ALPHABET)) for _ in range(k)]})
+    ctx.hist("sync scenarios", len(cases))
+    stop = ctx.t0 + (600 if thorough else 20)      # the histories below need the rest of the budget
+    for i in range(0, len(cases), 128):
+        if ctx.out_of_time() or (i and time.time() > stop):
+            break
+        chunk = cases[i:i + 128]
+        real = parallel_map(lib_cachesync.run_real, chunk, workers=WORKERS)
+        answers = ctx.lean.ask_many([lib_cachesync.model_request(c) for c in chunk])
+        for c, r, a in zip(chunk, real, answers):
+            if "states" not in a:
+                raise common.InfraError("model driver (sync): %s" % (a,))
+            check_sync(ctx, c, r, lib_cachesync.canon_model(a["states"]))
+
+
 def _shrinker():
     return c06.make_shrinker("C07", _run_one, check_case, "c07")
 
 
 def run(ctx):
-    cases = c06.corpus_cases("C07")
-    ctx.hist("corpus", len(cases))
+    corpus = c06.corpus_cases("C07")
+    sync_corpus = [c["sync"] for c in corpus if "sync" in c]
+    cases = [c for c in corpus if "sync" not in c]
+    ctx.hist("corpus", len(corpus))
+    sync_protocol(ctx, sync_corpus)
     evaluate(ctx, cases)
     n = ctx.n(1500, 12000)
     done = 0
-    soft = ctx.t0 + (70 if ctx.tier == "quick" and not ctx.escalated else 1e9)
+    soft = ctx.t0 + (88 if ctx.tier == "quick" and not ctx.escalated else 1e9)
     while done < n and not ctx.out_of_time() and time.time() < soft:
-        k = min(96, n - done)
+        k = min(48, n - done)          # small batches: the last one overruns the soft limit by its own length
         evaluate(ctx, [gen_case(ctx.rng) for _ in range(k)])
         done += k
     _shrinker()[2](ctx)
@@ -225,14 +392,37 @@ def run(ctx):
         return      # the counts below are taken from the implementation's behaviour: on a tree that violates the property they measure the defect, not the generator
     if ctx.evaluations > 20 and ctx.distinct_nontrivial < ctx.evaluations * 0.3:
         raise common.InfraError("degenerate distribution: %d non-trivial of %d" % (ctx.distinct_nontrivial, ctx.evaluations))
+    live = ctx.histogram.get("live2: two instances in one process", 0)
+    nh = ctx.histogram.get("histories", 0)
+    if nh > 60 and (live < nh // 8 or
+                                 not ctx.histogram.get("live2 right after eups admin buildCache -A (both read the stack-wide cache)", 0)):
+        raise common.InfraError("degenerate distribution: %d histories with two live instances in %d" % (live, nh))
+    if ctx.histogram.get("sync scenario: an instance went stale", 0) < 50 or ctx.histogram.get("sync event delete", 0) < 20:
+        raise common.InfraError("degenerate distribution of the staleness scenarios: %s" % ({k: v for k, v in ctx.histogram.items() if k.startswith("sync")},))
+    inside = ctx.histogram.get("race: B ran inside A's reload", 0)
+    if nh > 60 and inside < nh // 12:
+        raise common.InfraError("degenerate distribution: %d races with writer B inside writer A's reload in %d histories" % (inside, nh))
+    kb = ctx.histogram.get("undeclare killed before Database.undeclare, several versions declared", 0)
+    if nh > 60 and kb < nh // 12:
+        raise common.InfraError("degenerate distribution: %d undeclare commands killed before Database.undeclare in %d histories" % (kb, nh))
     crashed = ctx.histogram.get("cmd=declare/Crashed", 0) + ctx.histogram.get("cmd=undeclare/Crashed", 0)
-    if ctx.evaluations > 50 and crashed < ctx.evaluations // 10:
-        raise common.InfraError("degenerate distribution: %d crashed commands in %d histories" % (crashed, ctx.evaluations))
+    if nh > 50 and crashed < nh // 10:
+        raise common.InfraError("degenerate distribution: %d crashed commands in %d histories" % (crashed, nh))
 
 
 def replay(ctx, rp):
     common.import_eups()
     case = rp["input"]
+    if "sync" in case or "evs" in case:
+        case = case.get("sync", case)
+        real = lib_cachesync.run_real(case)
+        model = lib_cachesync.canon_model(ctx.lean.ask(lib_cachesync.model_request(case))["states"])
+        sub = common.Ctx("C07", "quick", 0, 60)
+        check_sync(sub, case, real, model)
+        return {"input": case, "impl_output": real[-1] if isinstance(real, list) else real, "model_output": model[-1],
+                "agree": not sub.disagreements,
+                "disagreements": [{"observable": d["observable"], "note": d["note"]} for d in sub.disagreements],
+                "fails": [{"clause": f["clause"], "class": f["finding_class"], "detail": f["note"]} for f in sub.failures]}
     steps = _run_one(case)
     ms = lib_db.model_steps(ctx.lean.ask(lib_db.model_request(case, m="c07")))
     sub = common.Ctx("C07", "quick", 0, 60)
